@@ -94,3 +94,11 @@ package keystore
 //@   pure
 //@   requires km != nil
 //@   ensures (result == nil) == ghostb("privPassOK", km, acctId, strOf(pass))
+
+// the checksum comparison of MnemonicToByteArray: true exactly for equal contents (every byte, including the last
+// one, which holds the checksum bits)
+//@ func compareByteSlices
+//@   props C13 C19
+//@   ensures result ==> len(a) == len(b) && (forall qj_ int :: 0 <= qj_ && qj_ < len(a) ==> a[qj_] == b[qj_])
+//@   ensures !result ==> len(a) != len(b) || (exists qj_ int :: 0 <= qj_ && qj_ < len(a) && a[qj_] != b[qj_])
+//@   loop#1 invariant len(a) == len(b) && (forall qj_ int :: 0 <= qj_ && qj_ < iter_ ==> a[qj_] == b[qj_])
